@@ -273,6 +273,22 @@ class _WithToc:
         return out + render_toc_ul(state.env.get("toc_items") or [])
 
 
+class _AfterPermissiveRenderer:
+    """a default converter used after ANOTHER converter, whose renderer allows every protocol, has rendered the very same
+    document: a verdict about a URL remembered across renderer instances must not serve the strict one (seeded change C02_m11)"""
+
+    def __init__(self, m):
+        self.perm = m.create_markdown(renderer=m.HTMLRenderer(allow_harmful_protocols=True))
+        self.strict = m.create_markdown(escape=True)
+
+    def __call__(self, doc):
+        try:
+            self.perm(doc)
+        except Exception:  # noqa  (C01's business)
+            pass
+        return self.strict(doc)
+
+
 class _After:
     """mistune.markdown(doc, **kw) with the defaults (escape on), called after the same shortcut was used with escape=False and
     with a renderer that allows every protocol: the cached converters of those calls must not serve this one"""
@@ -313,11 +329,16 @@ def oracle(ctx, extra):
     r = ctx.rng("oracle")
     cfgs = converters(m)
     noesc = ("html-noescape", m.create_markdown(escape=False, plugins=gen_docs.ALL_PLUGINS))
+    after_perm = ("html-core-after-permissive-renderer", _AfterPermissiveRenderer(m))
     fails = []
     n = 0
     docs = [e for e in extra if isinstance(e, str)] + list(payload_docs(r, ctx.n(2500, 60000)))
     seen = set()
     for d in docs:
+        if any(u in d.lower() for u in ("javascript:", "vbscript:", "file:", "data:")):
+            # first of all (before any strict converter has seen this document's URLs): a default converter after a permissive
+            # renderer rendered the same document
+            check_doc(after_perm[0], after_perm[1], d, fails)
         name, md = cfgs[n % len(cfgs)]
         if check_doc(name, md, d, fails):
             n += 1
@@ -340,7 +361,7 @@ def oracle(ctx, extra):
                     "footnote definitions, tables, def lists, math, ruby, spoilers, abbreviations, directive titles/options/"
                     "bodies (fenced and RST), 45% generated documents with words replaced by payloads; output read with "
                     "html.parser: no x9 element, no y9/z9/on* attribute, no script element/comment from a payload, no href/src "
-                    "with a harmful scheme (the latter also with escape=False on documents without raw HTML); every document contains a payload; converters: all plugins + fenced directives, all plugins + speedup + RST directives + hard_wrap, core, and the shortcut mistune.markdown() called after permissive calls of the same shortcut (escape=False, allow_harmful_protocols); every 12th document is a set of include directives converted with a file context (payloads in targets, encodings, options and in the included files)",
+                    "with a harmful scheme (the latter also with escape=False on documents without raw HTML); every document contains a payload; converters: all plugins + fenced directives, all plugins + speedup + RST directives + hard_wrap, core, and the shortcut mistune.markdown() called after permissive calls of the same shortcut (escape=False, allow_harmful_protocols); documents with a script URL also by a default converter after a second converter whose renderer allows every protocol rendered the same document; every 12th document is a set of include directives converted with a file context (payloads in targets, encodings, options and in the included files)",
             "samples": [json.dumps(docs[0])[:300]]}
 
 
